@@ -55,6 +55,11 @@ Definition hidden_ok (F : list hwrap) (action_dests : list string) (probes_rejec
   forallb (fun w => forallb (fun f => spec_exposed f || negb (str_in (dest (hf_fw f)) action_dests)) (hw_fields w)) F
   && forallb (fun p => snd p) probes_rejected.
 
+(* ... and its name appears in no group description either ("never appear") *)
+Definition hidden_not_mentioned (F : list hwrap) (gs : list group) : bool :=
+  forallb (fun w => forallb (fun f => spec_exposed f
+                                      || forallb (fun g => negb (occurs (name (hf_fw f)) (g_desc g))) gs) (hw_fields w)) F.
+
 (* `--help` ends with exit status 0, everything on stdout *)
 Definition ends_well (e : err) (where_ : option stream) : bool :=
   err_eqb e (Exit 0) && match where_ with Some SOut => true | _ => false end.
